@@ -4,7 +4,7 @@ from vlib import core, drivers
 
 PROP = 'C05'
 MODULES = ['PistacheModel.Props.C05']
-THEOREMS = ['Pistache.Emit.Props.' + t for t in ('readHex_size', 'chunked_roundtrip', 'chunked_data', 'splitHead_lines', 'reasons_noCR', 'fixed_framing', 'stream_framing', 'cap_exact', 'dbuf_write', 'fresh_write')]
+THEOREMS = ['Pistache.Emit.Props.' + t for t in ('readHex_size', 'chunked_roundtrip', 'chunked_data', 'splitHead_lines', 'reasons_noCR', 'fixed_framing', 'stream_framing', 'cap_exact', 'dbuf_write', 'fresh_write', 'pieces_complete_or_refused', 'fresh_pieces')]
 
 def hx(b):
     if isinstance(b, str): b = b.encode('latin-1')
